@@ -24,10 +24,22 @@
          certificate that omits the queried argument.
      (4) the clause templates themselves are a correct encoding of complete / stable semantics
          (soundness and completeness, any framework, any variable assignment);
-   NOT YET PROVED: the clause-set invariant (current assumptions + clause set == encoding of the
-   current framework, dead variables independent), hence statuses and certificates; the
-   assumptions-on-attacks tables.  See NOTES-dyn.md. *)
-From Crusta Require Import Model.Dynamic Proofs.DynDefs Proofs.DynProofs Proofs.DynEnc.
+   (5)-(7) below (Proofs/DynInv.v, DynFun.v; NOTES-agent-dynfun.md) close the gap for the dynamic COMPLETE
+   and STABLE solvers with the standard (selector based) encoder:
+     (5) the clause-set invariant over histories (the missing third leg; also for the preferred solver):
+         in every state reachable with the SAT program state threaded, the clauses of the session are
+         the template groups of the live arguments for their current attackers under their current
+         selectors, plus dead clauses;
+     (6) THE FUNCTIONAL THEOREM: every answer that is returned - computed by a SAT call or served from
+         the cache - is the one the semantics dictate for the specification store of the whole
+         history, certificate included, for every valid oracle, both n_vars disciplines;
+     (6') and such a query returns or aborts on an Unknown answer: never a panic, never out of fuel;
+     (7) hence the status depends on the abstract framework only (not on earlier queries, cached
+         results, retired variables).
+   STILL NOT PROVED: (6)-(7) for the preferred solver (KPr: (5) holds for it, the analysis of its search
+   loop on the shared session is missing), for the assumptions-on-attacks variants and their tables.  See NOTES-dyn.md, NOTES-agent-dynfun.md. *)
+From Crusta Require Import Model.Dynamic Spec.Invariance Proofs.SolverBasics Proofs.DynDefs Proofs.DynProofs Proofs.DynEnc
+  Proofs.DynFunDefs Proofs.DynInv Proofs.DynFun Proofs.DynTotal Proofs.CompProofs Proofs.SolverWholeEx.
 
 Section C08.
 Variable L : Type.
@@ -127,6 +139,109 @@ Theorem C08_preferred_cache_sound_partial : forall s os l b ext,
   b = false /\ forall id, get_argument L leqb (s_af L s) l = Some id -> ~ In id ext.
 Proof. exact (DynProofs.pr_cache_sound L leqb leqb_spec). Qed.
 
+(* ------------------------------------------------------------------------------------------------
+   (5)-(7): the complete and the stable dynamic solver answer exactly as the semantics dictate.
+
+   Vocabulary (Proofs/DynFunDefs.v).
+   [vreach oracle thr k s ps os]: s is a state of a solver of kind k and ps the state of the SAT program
+     (session = clauses added so far, n_vars, answer counter, log) reachable from [dyn_new] by ANY
+     interleaving of updates [os] (valid, redundant, invalid) and queries that returned, ALL queries being
+     answered by the one oracle; a query that aborts (Unknown answer), panics or runs out of fuel ends the
+     history.  The initial program state is arbitrary, hence so is the n_vars discipline: the theorems
+     cover CadicalLike and BufferedLike.
+   [avar e a], [svar e a]: the variable / the current attacker-set selector of argument a in the tables.
+   [group e a bs]: the clauses of add_attacks_to_constraints_for_{complete,stable}_semantics for a with
+     attacker list bs under svar e a (plus [-v; -d] for CO), i.e. DynEnc.co_group / st_group.
+   [live_var e x]: x is the variable of an argument, its disjunction variable (CO) or a current selector.
+   [dead_clause dv c]: c contains a literal over a variable x with a forced value (dv x = Some b) that
+     this value makes true - retired selectors (false, unit clause [-s]), variables of removed arguments
+     (true, unit clause [v]) and their disjunction variables (false). *)
+
+(* (5) the clause-set invariant, for EVERY kind with the standard encoder (complete, stable, preferred).
+   [atk a] is the current attacker SET of a (the list the group was last encoded for); every assignment
+   of the live variables satisfying the groups extends to the session by giving the dead variables
+   their forced values (that is how (6) uses it).  For the preferred solver the blocking clauses of
+   earlier queries are dead: they contain the MaxExt selector 1 + n_vars of their query, forced true by
+   the unit clause added when that query ended (what the search does DURING a query is not covered). *)
+Theorem C08_clause_set_invariant : forall oracle thr k s ps os e,
+  vreach L leqb oracle thr k s ps os -> k = KCo \/ k = KSt \/ k = KPr -> b_enc L (s_buf L s) = XStd e ->
+  exists (dv : nat -> option bool) (atk : nat -> list nat),
+    (forall x, dv x <> None -> x <= session_n_vars (sess ps)) /\
+    (forall x, live_var e x -> dv x = None) /\
+    (forall a, has_argument_with_id L (s_af L s) a = true -> tbl_var (e_a2s e) a <> None) /\
+    (forall a, has_argument_with_id L (s_af L s) a = true ->
+       (forall b, In b (atk a) <-> In (b, a) (iter_attacks L (s_af L s))) /\
+       incl (group e a (atk a)) (cls ps)) /\
+    (forall c, In c (cls ps) ->
+       dead_clause dv c \/
+       exists a, has_argument_with_id L (s_af L s) a = true /\ In c (group e a (atk a))).
+Proof. exact (DynInv.clause_set_invariant_std L leqb leqb_spec). Qed.
+
+(* (6) the functional theorem.  For the complete solver (DC) and the stable solver (DC and DS), any
+   certificate flag, any history, any valid oracle (SolverBasics.valid_oracle: a Sat answer is a model
+   of the clauses and the assumptions, an Unsat answer means there is none, Unknown is always allowed):
+   a query on a label of the specification store [run_ops fresh os] of the WHOLE history that returns
+   gives the status of that argument in the abstract framework of that store, and a certificate exactly
+   when promised (flag on and DC-yes / DS-no): an extension (complete resp. stable), duplicate-free, made
+   of live arguments, containing resp. omitting the argument.  Answers served from the cache included. *)
+Theorem C08_complete_stable_functional :
+  forall oracle thr k s ps os fuel q cert l id s' b c ps',
+  valid_oracle oracle -> vreach L leqb oracle thr k s ps os ->
+  (k = KCo /\ q = QDC) \/ (k = KSt /\ (q = QDC \/ q = QDS)) ->
+  get_argument L leqb (run_ops fresh os) l = Some id ->
+  dyn_query oracle L leqb thr fuel s q cert l ps = Done (s', (b, c)) ps' ->
+  let F := af_of (run_ops fresh os) in
+  let sm := match k with KSt => ST | _ => CO end in
+  let pol := match q with QDC => true | _ => false end in       (* true: credulous, false: skeptical *)
+  (b = true <-> if pol then cred sm F [id] else skep sm F [id]) /\
+  match c with
+  | Some X => cert = true /\ b = pol /\ ext sm F X /\ NoDup X /\ incl X (args F) /\
+              (if pol then In id X else ~ In id X)
+  | None => cert = true -> b = negb pol
+  end.
+Proof. exact (DynFun.dyn_functional L leqb leqb_spec). Qed.
+
+(* (6') "every dynamic solver answers each acceptance query it supports": the query of (6) either RETURNS -
+   with the answer of (6) - or aborts because the SAT solver answered Unknown; it never panics and never
+   exhausts the model's fuel (the form of the static solver theorems, C01-C04: run_ok) *)
+Theorem C08_complete_stable_answers :
+  forall oracle thr k s ps os fuel q cert l id,
+  valid_oracle oracle -> vreach L leqb oracle thr k s ps os ->
+  (k = KCo /\ q = QDC) \/ (k = KSt /\ (q = QDC \/ q = QDS)) ->
+  get_argument L leqb (run_ops fresh os) l = Some id ->
+  match dyn_query oracle L leqb thr fuel s q cert l ps with
+  | Done (s', (b, c)) ps' =>
+      let F := af_of (run_ops fresh os) in
+      let sm := match k with KSt => ST | _ => CO end in
+      let pol := match q with QDC => true | _ => false end in
+      (b = true <-> if pol then cred sm F [id] else skep sm F [id]) /\
+      match c with
+      | Some X => cert = true /\ b = pol /\ ext sm F X /\ NoDup X /\ incl X (args F) /\
+                  (if pol then In id X else ~ In id X)
+      | None => cert = true -> b = negb pol
+      end
+  | Abort _ => True
+  | Panic _ | OutOfFuel _ => False
+  end.
+Proof. exact (DynTotal.dyn_functional_run L leqb leqb_spec). Qed.
+
+(* (7) "earlier queries, cached results and retired SAT variables never influence a later answer": two
+   histories - whatever their queries, oracles, thresholds, fuels, certificate flags - whose
+   specification stores denote the same abstract framework (same arguments, same attacks) give the same
+   status for the same argument *)
+Theorem C08_status_depends_on_framework_only :
+  forall oracle1 oracle2 thr1 thr2 k s1 s2 ps1 ps2 os1 os2 fuel1 fuel2 q cert1 cert2 l1 l2 id
+         s1' s2' b1 b2 c1 c2 ps1' ps2',
+  valid_oracle oracle1 -> valid_oracle oracle2 ->
+  vreach L leqb oracle1 thr1 k s1 ps1 os1 -> vreach L leqb oracle2 thr2 k s2 ps2 os2 ->
+  (k = KCo /\ q = QDC) \/ (k = KSt /\ (q = QDC \/ q = QDS)) ->
+  af_equiv (af_of (run_ops fresh os1)) (af_of (run_ops fresh os2)) ->
+  get_argument L leqb (run_ops fresh os1) l1 = Some id -> get_argument L leqb (run_ops fresh os2) l2 = Some id ->
+  dyn_query oracle1 L leqb thr1 fuel1 s1 q cert1 l1 ps1 = Done (s1', (b1, c1)) ps1' ->
+  dyn_query oracle2 L leqb thr2 fuel2 s2 q cert2 l2 ps2 = Done (s2', (b2, c2)) ps2' ->
+  b1 = b2.
+Proof. exact (DynFun.dyn_status_history_independent L leqb leqb_spec). Qed.
+
 End C08.
 
 (* (4) the clause templates of the dynamic encoder are a correct encoding (the analogue of C10 for
@@ -208,6 +323,33 @@ Proof.
   eapply reach_new with (ps := init_st CadicalLike). reflexivity.
 Qed.
 
+(* the hypotheses of (5)-(7) are satisfiable, and the queries do return: the stable solver with the
+   brute-force reference oracle (valid: SolverWholeEx.bf_oracle_valid) on the history
+   +1 +2 1->2 2->1, DC 1 with certificate (computed), DC 1 again (served from the cache), +3 3->1 -2;
+   then DS 1 with certificate returns NO with the stable extension {3} of the framework {1, 3 | 3->1} *)
+Example C08_functional_inhabited :
+  exists s ps s' b c ps',
+    valid_oracle bf_oracle /\
+    vreach nat Nat.eqb bf_oracle 1 KSt s ps
+      (((((((([] ++ [OpNewArg 1]) ++ [OpNewArg 2]) ++ [OpNewAtt 1 2]) ++ [OpNewAtt 2 1])
+          ++ [OpNewArg 3]) ++ [OpNewAtt 3 1]) ++ [OpRemArg 2])) /\
+    get_argument nat Nat.eqb
+      (run_ops nat Nat.eqb (fresh_fw nat Nat.eqb)
+         [OpNewArg 1; OpNewArg 2; OpNewAtt 1 2; OpNewAtt 2 1; OpNewArg 3; OpNewAtt 3 1; OpRemArg 2]) 1 = Some 0 /\
+    dyn_query bf_oracle nat Nat.eqb 1 10 s QDS true 1 ps = Done (s', (b, c)) ps' /\
+    b = false /\ c = Some [2].
+Proof.
+  do 6 eexists. split; [exact bf_oracle_valid|]. split.
+  - eapply vreach_update. eapply vreach_update. eapply vreach_update.
+    eapply (vreach_query nat Nat.eqb bf_oracle 1 KSt _ _ _ 10 QDC true 1).
+    + eapply (vreach_query nat Nat.eqb bf_oracle 1 KSt _ _ _ 10 QDC true 1).
+      * eapply vreach_update. eapply vreach_update. eapply vreach_update. eapply vreach_update.
+        eapply vreach_new with (ps0 := init_st CadicalLike). reflexivity.
+      * vm_compute. reflexivity.
+    + vm_compute. reflexivity.
+  - split; [vm_compute; reflexivity|]. split; [vm_compute; reflexivity|]. split; reflexivity.
+Qed.
+
 Print Assumptions C08_query_resynchronises_partial.
 Print Assumptions C08_recompute_wrapper_framework_partial.
 Print Assumptions C08_tables_partial.
@@ -219,6 +361,10 @@ Print Assumptions C08_split_covers_live_partial.
 Print Assumptions C08_extension_of_assignment_partial.
 Print Assumptions C08_fresh_certificate_wellformed_partial.
 Print Assumptions C08_preferred_cache_sound_partial.
+Print Assumptions C08_clause_set_invariant.
+Print Assumptions C08_complete_stable_functional.
+Print Assumptions C08_complete_stable_answers.
+Print Assumptions C08_status_depends_on_framework_only.
 Print Assumptions C08_complete_template_sound_partial.
 Print Assumptions C08_complete_template_complete_partial.
 Print Assumptions C08_stable_template_sound_partial.
